@@ -2,3 +2,4 @@ import InToto.Properties.C08
 #print axioms InToto.C08.sublayout_dir_name
 #print axioms InToto.C08.missing_subdir_is_empty
 #print axioms InToto.C08.depth_positive
+#print axioms InToto.C08.facts_sublayout_dir_format
